@@ -12,6 +12,7 @@ use petgraph::Direction;
 
 use crate::Ctx;
 use crate::model_io::*;
+use crate::refsem;
 use crate::statelevel::judge;
 
 const GROUP_BASE: u8 = 10;
@@ -85,9 +86,19 @@ fn process_event<C: CondT>(
         let mut ign: Vec<u32> = temp.ignore.iter().map(|o| o.0).collect();
         ign.sort();
         let cur = plain_gstates(&temp.current_state());
-        (head_states, ign, cur)
+        // Independent state at the dependencies: plain replay of the (pruned) operation graph under the
+        // reference semantics (refsem.rs) - only where no strong-remove rule can fire.
+        let pops: Vec<POp> = temp.graph.nodes().filter_map(|n| temp.operations.get(&n).map(|g| g.p.clone())).collect();
+        let ref_cur = if refsem::resolver_idle(&pops) {
+            let rs = refsem::ref_replay(&pops);
+            let hs: Vec<&PGStates> = theads.iter().filter_map(|h| rs.get(&h.0)).collect();
+            if hs.len() == theads.len() { Some(refsem::ref_merge_groups(&hs)) } else { None }
+        } else {
+            None
+        };
+        (head_states, ign, cur, ref_cur)
     }));
-    let Ok((head_states, ign, cur)) = temp else {
+    let Ok((head_states, ign, cur, ref_cur)) = temp else {
         // the harness' own reconstruction failed: nothing to compare for this event
         cx.out.count("dec: state at dependencies not reconstructible (skipped)");
         let r = hc::catch(AssertUnwindSafe(|| G::<C>::process(y.clone(), &op)));
@@ -147,6 +158,25 @@ fn process_event<C: CondT>(
         let n = cx.out.case(&req, &answer, nt);
         // ---- C33 oracle: judged on the implementation's own answer -------------------------------
         let actor: Mem = (false, pop.author);
+        // the oracle judges against the reference state at the dependencies wherever it is defined
+        cx.out.count(if ref_cur.is_some() { "dec: judged on the reference state at the dependencies" } else { "dec: judged on the implementation's state (strong-remove rules may fire)" });
+        if let (Some(rc), true) = (&ref_cur, cx.prop == "C33") {
+            if *rc != cur {
+                let g = rc.keys().chain(cur.keys()).find(|g| rc.get(g) != cur.get(g)).cloned().unwrap_or(0);
+                cx.out.oracle_fail(
+                    n,
+                    "state-at-dependencies-differs-from-reference",
+                    &format!(
+                        "group {g}: implementation's merged state at the dependencies is {} but the reference semantics gives {}; line: {req}",
+                        cur.get(&g).map(show_mstate).unwrap_or_else(|| "absent".into()),
+                        rc.get(&g).map(show_mstate).unwrap_or_else(|| "absent".into())
+                    ),
+                    hist,
+                    &answer,
+                );
+            }
+        }
+        let cur = ref_cur.unwrap_or(cur);
         let fail: Option<(String, String)> = if known {
             if word == "ok" {
                 Some(("duplicate-accepted".into(), "an already processed operation was accepted again".into()))
@@ -779,6 +809,108 @@ fn targeted<C: CondT>(cx: &mut Ctx, sub: u64) {
     compare_and_tie(cx, &hist, &ops, &[g], &finals, true, c33);
 }
 
+/// Targeted family (C33): a member is promoted to manager, then - after a fork - removed and re-added at a
+/// lower level on one branch while a concurrent branch (forked before the removal) does something unrelated;
+/// the tips are merged and the re-added member then acts as a manager (add / remove / promote). It must be
+/// refused: at its dependencies it is an active member *below* Manage. Every decision is judged against the
+/// reference state at the dependencies (refsem.rs), every delivery order replayed.
+fn targeted33<C: CondT>(cx: &mut Ctx, sub: u64) {
+    let hist = format!("hist A{} {}", if C::UNIT { "U" } else { "C" }, sub);
+    let mut rng = Rng::new(sub ^ 0x33aa);
+    let mut st = HistStats::default();
+    let g = GROUP_BASE;
+    let target: Mem = (false, 3);
+    let mut ops: Vec<POp> = vec![];
+    let mut id = 0u32;
+    let mut mk = |author: u8, deps: Vec<u32>, act: Act, ops: &mut Vec<POp>| -> u32 {
+        id += 1;
+        ops.push(POp { id, author, deps, group: g, act });
+        id
+    };
+    let root = mk(
+        0,
+        vec![],
+        Act::Create(vec![((false, 0), (3, None)), ((false, 1), (3, None)), ((false, 2), (rng.below(3) as u8, None)), (target, (rng.below(3) as u8, None))]),
+        &mut ops,
+    );
+    // access modified at least once before the fork, ending at Manage
+    let mut last = root;
+    if rng.chance(1, 2) {
+        last = mk(1, vec![last], Act::Promote(target, (2, None)), &mut ops);
+    }
+    let fork = mk(0, vec![last], Act::Promote(target, (3, None)), &mut ops);
+    // branch 1: remove, re-add at a lower level (sometimes by the other manager, sometimes the member left itself)
+    let remover = if rng.chance(1, 4) { 3 } else { rng.below(2) as u8 };
+    let r = mk(remover, vec![fork], Act::Remove(target), &mut ops);
+    let low = rng.below(3) as u8;
+    let mut tip1 = mk(rng.below(2) as u8, vec![r], Act::Add(target, (low, None)), &mut ops);
+    if rng.chance(1, 4) {
+        // a further change below Manage
+        tip1 = mk(0, vec![tip1], Act::Promote(target, ((low + 1) % 3, None)), &mut ops);
+    }
+    // branch 2 (forked before the removal): something unrelated
+    let other = if remover == 1 { 0 } else { 1 };
+    let mut tip2 = match rng.below(3) {
+        0 => mk(other, vec![fork], Act::Add((false, 5), (1, None)), &mut ops),
+        1 => mk(other, vec![fork], Act::Demote((false, 2), (0, None)), &mut ops),
+        _ => mk(other, vec![fork], Act::Add((false, 6), (2, None)), &mut ops),
+    };
+    if rng.chance(1, 3) {
+        tip2 = mk(other, vec![tip2], Act::Add((false, 7), (0, None)), &mut ops);
+    }
+    // merge: an explicit operation on both tips, or the member's own operation depends on both tips
+    let mut tips = vec![tip1, tip2];
+    tips.sort();
+    let deps = if rng.chance(1, 2) { vec![mk(0, tips.clone(), Act::Add((false, 8), (1, None)), &mut ops)] } else { tips };
+    // the re-added member acts as a manager
+    let act = match rng.below(4) {
+        0 => Act::Add((false, 9), (1, None)),
+        1 => Act::Remove((false, 1)),
+        2 => Act::Promote((false, 2), (3, None)),
+        _ => Act::Add((false, 9), (3, None)),
+    };
+    let x = mk(3, deps, act, &mut ops);
+    if rng.chance(1, 2) {
+        // and somebody builds on top of it
+        mk(0, vec![x], Act::Add((false, 4), (1, None)), &mut ops);
+    }
+    let c33 = cx.prop == "C33";
+    let mut y = G::<C>::init();
+    let mut accepted: Vec<POp> = vec![];
+    let mut dropped: BTreeSet<u32> = BTreeSet::new();
+    for o in &ops {
+        if o.deps.iter().any(|d| dropped.contains(d)) {
+            dropped.insert(o.id);
+            continue;
+        }
+        let (y2, _) = process_event(cx, &y, o, &hist, c33, true, &mut st);
+        match y2 {
+            Some(y2) => {
+                y = y2;
+                accepted.push(o.clone());
+            }
+            None => {
+                dropped.insert(o.id);
+            }
+        }
+    }
+    cx.out.count("targeted histories (promoted, removed, re-added lower, stale concurrent branch, then acts as manager)");
+    if dropped.contains(&x) {
+        cx.out.count("targeted: the re-added member's manager action was refused");
+    } else {
+        cx.out.count("targeted: the re-added member's manager action was ACCEPTED");
+    }
+    let mut finals: Vec<Y<C>> = vec![];
+    if !all_orders(cx, &hist, &G::<C>::init(), &mut BTreeSet::new(), &accepted, 60, &mut rng, &mut st, &mut finals) {
+        return;
+    }
+    compare_and_tie(cx, &hist, &accepted, &[g], &finals, true, c33);
+}
+
+pub fn targeted33_history(cx: &mut Ctx, sub: u64, unit: bool) {
+    if unit { targeted33::<()>(cx, sub) } else { targeted33::<Cond>(cx, sub) }
+}
+
 pub fn targeted_history(cx: &mut Ctx, sub: u64, unit: bool) {
     if unit { targeted::<()>(cx, sub) } else { targeted::<Cond>(cx, sub) }
 }
@@ -794,6 +926,10 @@ pub fn replay(cx: &mut Ctx, req: &str) {
         return;
     }
     let sub: u64 = t[2].parse().expect("sub-seed");
+    if t[1].starts_with('A') {
+        targeted33_history(cx, sub, t[1] == "AU");
+        return;
+    }
     if t[1].starts_with('T') {
         targeted_history(cx, sub, t[1] == "TU");
         return;
